@@ -255,7 +255,8 @@ def fam_C06(seed, n):
                        idExpiry=r.choice([MAX, MAX, MAX, 3 * U]), grace=10 * U)
         sc = Script()
         emit_cfg(sc, codec, cfg)
-        octs = [r.randint(1, 250) for _ in range(4)]
+        # small octets half of the time, so that "new octet = old octet followed by a digit" (1 -> 17, 10 -> 104) occurs
+        octs = [r.randint(1, 250) for _ in range(4)] if r.random() < 0.5 else [r.randint(1, 25) for _ in range(4)]
         port = r.randint(1000, 60000)
         ua = r.choice(["Mozilla/5.0 (X11)", "curl/8", "", "Ünï"])
 
@@ -264,7 +265,8 @@ def fam_C06(seed, n):
 
         sc.add("req c0 jar", qs(addr(octs, port)), qs(ua) if ua else "-", 1)
         sc.add("h set k0 s" + hx("x"))
-        if r.random() < 0.25:
+        regen = r.random() < 0.35
+        if regen:
             sc.add("h regen")
         sc.add("end")
         for _ in range(r.randint(2, 8)):
@@ -278,9 +280,18 @@ def fam_C06(seed, n):
             o2 = list(octs)
             p2 = port
             y = r.random()
-            if y < 0.45:
+            if y < 0.2:
                 j = r.randrange(4)
                 o2[j] = (o2[j] % 250) + 1
+            elif y < 0.45:
+                # a change that keeps the old octet as a textual prefix of the new one, or the reverse
+                j = r.randrange(4)
+                if o2[j] <= 25 and r.random() < 0.7:
+                    o2[j] = o2[j] * 10 + r.randint(0, 5)
+                elif o2[j] >= 10:
+                    o2[j] = o2[j] // 10
+                else:
+                    o2[j] = o2[j] + 10
             elif y < 0.55:
                 p2 = port + 1
             elif y < 0.65:
@@ -292,7 +303,7 @@ def fam_C06(seed, n):
             elif z < 0.3:
                 ua2 = ""
             a2 = addr(o2, p2) if not (0.55 <= y < 0.65) else a2
-            spec = "jar" if r.random() < 0.85 else "val:g0"
+            spec = "jar" if r.random() < (0.5 if regen else 0.9) else "val:g0"
             sc.add("req c0", spec, qs(a2), qs(ua2) if ua2 else "-", r.choice([0, 1]))
             sc.add("end")
             # the comparison point moves only if the request was accepted; the generator does not know, which is fine
